@@ -16,6 +16,13 @@ NOTES = ("Every check = TLA+ specification under spec/ checked by TLC + conforma
          "known_findings.json lists genuine defects (known / fixed).")
 NOT_APPLICABLE = {}
 CHECKS = {
+    "C14": {
+        "level": "model_checking",
+        "technique": "TLA+ spec Backend.tla (outline builder AddBookmark as a transition system vs declarative Outline, anchors/links expectations; drawing protocol Proto as a folded transition function) model-checked by TLC; link documents replayed and compared call by call; backend call sequences recorded from document.Write validated as traces by TLC (BackendTrace.tla) on Decor/Flow/TableGrid/Stacking/link documents at three zooms",
+        "text": "TLC proves the outline algorithm equals the declarative outline and never hits its internal panic, and emits anchors/links/outline expectations; "
+                "the real CreateAnchors/AddInternalLink/SetBookmarks/metadata calls must match, and every recorded call sequence must satisfy the protocol guards.",
+        "note": "Recording backend; no images/SVG in the corpus; CreateAnchors order within a page is not compared here.",
+    },
     "C16": {
         "level": "model_checking",
         "technique": "TLA+ spec Stacking.tla (CSS 2.1 Appendix E painter as a stack machine, declarative Order, invariants Agree/Once/BgFirst/Layering/Atomic, liveness) model-checked by TLC; every arrangement rendered on the recording backend and the order of fills and text drawings compared with the specification's event sequence",
